@@ -48,9 +48,14 @@ def bv_exhaustive(ctx, env, widths):
             for lo in range(w):
                 for hi in range(lo, w):
                     out.append(m.BVExtract(a, lo, hi))
-            for k in range(w + 1):
-                out.append(m.BVRol(a, k))
-                out.append(m.BVRor(a, k))
+            # rotation amounts beyond the width too: today the type checker refuses k > w
+            # (known finding F41 of C03), but if a build accepts them their value must be exact
+            for k in range(2 * w + 2):
+                for ctor in (m.BVRol, m.BVRor):
+                    try:
+                        out.append(ctor(a, k))
+                    except PysmtException:
+                        ctx.count("bv_rotate_refused")
             for k in range(3):
                 out.append(m.BVZExt(a, k))
                 out.append(m.BVSExt(a, k))
